@@ -187,6 +187,11 @@ func ZZ_C19() {
 	}
 
 	for step := 0; step < K; step++ {
+		zzrt.MapRotate(0)
+		if step == K-1 && zzrt.Param("ROT") == 1 {
+			// the last operation runs under every rotation of the iteration order of the agents' maps
+			zzrt.MapRotate(zzrt.Choose(3))
+		}
 		switch zzrt.NondetIntn("op", 6) {
 		case 5: // Deactivate for a PID that is not active (never activated, or deactivated before): changes nothing
 			i := zzrt.Choose(N)
